@@ -378,6 +378,9 @@ func c19Entry(c *Ctx, r *Report, e *FuncRef, st *Staged) {
 		if !fc.Reachable(create, call) {
 			continue
 		}
+		if cf := callee(info, call); cf != nil && plainWriterHelper(c, cf) {
+			continue // a helper that only writes / closes the file it is handed
+		}
 		if n := shortFuncName(callee(info, call)); !allowed[n] {
 			bad = "after os.Create the entry point calls " + n + ", which is not a plain write/close: a failure there leaves a damaged output file"
 		}
